@@ -7,6 +7,7 @@ CONSTANTS
   ChmodGate = TRUE
   CopyGate = TRUE
   Truncates = TRUE
+  PPOrder = "program_first"
   Privileged = FALSE
   OptsSel = "all"
   EnvOn = TRUE
